@@ -177,3 +177,31 @@ def dic_id(db, ctx):
                 ok = lit_int(n["then"]) == -1 and "dic()" in render(n.get("else", {}))
         ctx.ob("%s" % f.short(), ok, "%s: `if is_oov {-1} else {dic()}`: %s" % (f.short(), ok), fn=f)
     ctx.floor(2)
+
+
+@rule("C12.fixups", "per-field re-stamping in get_word_info_subset is guarded by that field's own flag (re-evaluation of C11.fixups)")
+def fixups(db, ctx):
+    from . import C11
+    C11.fixups(db, ctx)
+    ctx.floor(4)
+
+
+@rule("C12.merge-appends-all", "Grammar::merge appends the user dictionary's whole POS table (no filtering / de-duplication): the POS rebase "
+                               "assumes each dictionary's table sits contiguously at the offset recorded before the merge")
+def merge_appends_all(db, ctx):
+    f = db.one("merge", "Grammar")
+    calls = [c for c, _ in walk(f.hir) if c.get("k") == "MethodCall" and "pos_list" in render(c["recv"]) and c["method"] in ("extend", "append", "push", "extend_from_slice", "insert", "retain", "dedup")]
+    ok = len(calls) == 1 and calls[0]["method"] in ("extend", "append", "extend_from_slice")
+    arg = render(calls[0]["args"][0]) if calls else None
+    adapt = False
+    if ok:
+        names = []
+        cur = peel(calls[0]["args"][0])
+        while cur.get("k") == "MethodCall":
+            names.append(cur["method"])
+            cur = peel(cur["recv"])
+        adapt = bool(set(names) & {"filter", "filter_map", "skip", "take", "skip_while", "take_while", "dedup", "step_by", "rev"})
+    cond = any(x.get("k") in ("If", "Match") and x.get("src") != "ForLoopDesugar" for x, _ in walk(f.hir))
+    ctx.ob("Grammar::merge|whole-table", ok and not adapt and not cond,
+           "Grammar::merge grows pos_list with `%s` (calls: %s); filtering adaptor: %s; conditional logic: %s — every entry must be appended" % (
+               arg, [c["method"] for c in calls], adapt, cond), fn=f)
